@@ -33,6 +33,9 @@ TAG_RE = re.compile(rb"\[img-(\d+)\]")
 
 def tmpl_text(st):
     f, L = st["fam"], st["lits"]
+    if f == "range" and st.get("boom"):
+        # execution fails in the middle of the rendering, at the first message whose role is "boom"
+        return "{{range .Messages}}%s{{.Role}}%s{{.Content}}{{if eq .Role \"boom\"}}{{index \"\" 1}}{{end}}%s{{end}}%s" % tuple(L)
     if f == "range":
         return "{{range .Messages}}%s{{.Role}}%s{{.Content}}%s{{end}}%s" % tuple(L)
     if f == "legacy":
@@ -117,10 +120,13 @@ def rnd_conv(rng, maxlen=7):
     sysw = rng.choice([0.15, 0.35, 0.6])
     otherw = rng.choice([0, 0, 0, 0.15])
     imgw = rng.choice([0, 0.3, 0.6])
+    toolw = rng.choice([0, 0, 0.3])
+    if toolw:
+        otherw = 0.2
     for k in range(n):
         r = rng.random()
         if r < otherw:
-            role = rng.choice(["tool", "", "System", "user ", "function"])
+            role = rng.choice(["tool", "tool", "", "System", "user ", "function"])
         elif r < otherw + sysw:
             role = "system"
         else:
@@ -142,7 +148,37 @@ def rnd_conv(rng, maxlen=7):
         m = {"id": k, "role": role, "body": body, "images": imgs}
         if rng.random() < 0.05:
             m["raw"] = ""                                     # empty content (no marker)
+        if role == "assistant" and rng.random() < toolw:
+            m["tools"] = rng.choice([1, 1, 2])                # assistant message carrying tool calls
+            if rng.random() < 0.5 and not imgs:
+                m["raw"] = ""                                 # ... typically with empty content
         msgs.append(m)
+    return msgs
+
+
+def tool_dialogue(rng, first_id=0):
+    """[system] (user, assistant text, assistant tool calls, tool results..., [assistant text])* user"""
+    msgs = []
+
+    def add(role, body=None, **kw):
+        m = {"id": first_id + len(msgs), "role": role, "body": rnd_body(rng) if body is None else body, "images": []}
+        m.update(kw)
+        msgs.append(m)
+    if rng.random() < 0.5:
+        add("system")
+    for _ in range(rng.choice([1, 1, 2])):
+        add("user")
+        if rng.random() < 0.8:
+            add("assistant")                                  # text before the call
+        call = {"tools": rng.choice([1, 2])}
+        if rng.random() < 0.6:
+            call["raw"] = ""
+        add("assistant", **call)
+        for _ in range(rng.choice([1, 1, 2])):
+            add("tool")
+        if rng.random() < 0.4:
+            add("assistant")
+    add("user")
     return msgs
 
 
@@ -157,8 +193,8 @@ def wire(c):
             return [{"w": 4 + i % 5, "h": 3 + i % 7, "c": (i * 2654435761) % (1 << 24)} for i in m["images"]]
         return [img_bytes(i).hex() for i in m["images"]]
     return {"tmpl": style_text(c["style"]).encode().hex(), "tok": c["tok"], "mllama": c["mllama"], "proj": c["proj"], "num_ctx": c["num_ctx"],
-            "png": bool(c.get("png")),
-            "msgs": [{"role": m["role"].encode().hex(), "content": content_of(m).encode().hex(), "images": imgs(m)} for m in c["msgs"]]}
+            "png": bool(c.get("png")), "tok_fail": c.get("tok_fail", 0),
+            "msgs": [{"role": m["role"].encode().hex(), "content": content_of(m).encode().hex(), "images": imgs(m), "tool_calls": m.get("tools", 0)} for m in c["msgs"]]}
 
 
 def img_tokens(c):
@@ -170,6 +206,9 @@ def ctxlens(c, o):
     out = []
     for k in range(len(c["msgs"])):
         v = o["cand"][k]
+        if v < 0:            # the template refuses this candidate (execution error)
+            out.append(None)
+            continue
         if c["proj"]:
             v += img_tokens(c) * sum(len(m["images"]) for m in c["msgs"][k:])
         out.append(v)
@@ -184,13 +223,30 @@ def retained_start(c, o):
     L = ctxlens(c, o)
     last = len(c["msgs"]) - 1
     n = last
-    while n > 0 and L[n - 1] <= c["num_ctx"]:
+    while n > 0 and L[n - 1] is not None and L[n - 1] <= c["num_ctx"]:
         n -= 1
     alts = [n]
-    fitting = [k for k in range(last) if L[k] <= c["num_ctx"]]
+    fitting = [k for k in range(last) if L[k] is not None and L[k] <= c["num_ctx"]]
+    if any(v is None for v in L):
+        fitting = []
     if fitting and min(fitting) != n:
         alts.append(min(fitting))
     return n, alts
+
+
+def template_error_expected(c, o):
+    """the scan (or the final rendering) reaches a list that the template refuses to render"""
+    L = ctxlens(c, o)
+    if not any(v is None for v in L):
+        return False
+    n = len(c["msgs"]) - 1
+    while n > 0:
+        if L[n - 1] is None:
+            return True
+        if L[n - 1] > c["num_ctx"]:
+            break
+        n -= 1
+    return L[n] is None      # the final list is candidate n with rewritten contents
 
 
 def find_all(hay, needle):
@@ -244,6 +300,13 @@ def property_failure(c, o, n):
     legacy = st["fam"] in ("legacy", "legacyif")
     overwritten = legacy_overwritten(c, n, expect) if legacy else set()
     lit_tags = any("[img-" in content_of(m) for m in msgs)
+
+    # --- nothing of another conversation (state kept across requests)
+    own = {m["id"] for m in msgs}
+    for mm in re.finditer(rb"\((\d+):|:(\d+)\)", prompt):
+        fid = int(mm.group(1) or mm.group(2))
+        if fid not in own:
+            return ("foreign-text", "the prompt contains text of another conversation (marker %d)" % fid)
 
     # --- image list: exactly the images of the retained messages, in order, numbered from 0
     want = [i for k in range(n, last + 1) for i in msgs[k]["images"]]
@@ -341,6 +404,12 @@ def judge(c, o):
         if c["mllama"] and any(len(m["images"]) > 1 for m in msgs):
             return None      # request rejected (more than one image in a message for this model family): no prompt is built
         return ({"class": "spurious-error"}, "chatPrompt failed with errTooManyImages without cause")
+    if "cand" in o and template_error_expected(c, o):
+        if oc == 3:
+            return None      # the template cannot render this conversation: the error is returned, no prompt is built
+        return ({"class": "template-error-lost"}, "the template fails on a list chatPrompt must render, but chatPrompt returned outcome %s" % oc)
+    if oc == 3 and c.get("tok_fail"):
+        return None          # the tokenizer failed: the error is returned, no prompt is built
     if oc != 0:
         return ({"class": "no-prompt", "outcome": oc}, "chatPrompt did not build a prompt: %s" % o.get("err") or o.get("panic"))
     n, alts = retained_start(c, o)
@@ -391,17 +460,22 @@ def msgs_term(c):
 
 def render_chat(c, o):
     oc = o.get("outcome")
-    if oc not in (0, 1, 2):
+    if "cand" in o and c["msgs"] and template_error_expected(c, o):
+        return "true" if oc == 3 else "false"      # template failures are not modelled; the monitor judged the outcome
+    if oc not in (0, 1, 2) and not (oc == 3 and c.get("tok_fail")):
         return "false"
     prompt = bytes.fromhex(o.get("prompt", ""))
     imgs = cq_list(["(%s, %s)" % (cq_N(e["id"]), cq_N(e["_img"] if e.get("_img") is not None else 999999)) for e in o.get("images") or []], "(N * N)")
     after = cq_list([cq_bytes(bytes.fromhex(x)) for x in o.get("after") or []], "str")
-    return "chk_chat %s %s %s %s %s %s %s %s %s %s" % (
+    return "%s %s %s %s %s %s %s %s %s %s %s" % (
+        ("chk_chat_fail %d%%nat" % c["tok_fail"]) if c.get("tok_fail") else "chk_chat",
         style_term(c["style"]), cq_N(c["tok"]), cq_bool(c["mllama"]), cq_bool(c["proj"] != 0), cq_Z(c["num_ctx"]), msgs_term(c),
         cq_N(oc), cq_bytes(prompt), imgs, after)
 
 
 def render_cand(c, o):
+    if any(x < 0 for x in o["cand"]):
+        return "true"
     return "chk_cand %s %s %s %s %s" % (
         style_term(c["style"]), cq_N(c["tok"]), msgs_term(c),
         cq_list([cq_bytes(bytes.fromhex(x)) for x in o["cand_prompt"]], "str"), cq_list([cq_N(x) for x in o["cand"]], "N"))
@@ -450,7 +524,8 @@ def thresholds(rng, c0, o0, how_many):
     L = ctxlens(c0, o0)
     cands = set()
     for v in L:
-        cands.update([v - 1, v, v + 1])
+        if v is not None:
+            cands.update([v - 1, v, v + 1])
     cands = sorted(x for x in cands)
     picks = set(rng.sample(cands, min(how_many, len(cands))))
     if rng.random() < 0.2:
@@ -498,6 +573,33 @@ def gen_convs(ctx):
         for m in msgs:
             m["images"] = m["images"][:rng.choice([1, 1, 1, 2])]
         convs.append((rnd_style(rng), msgs, 0, True, 2, "mllama-png"))
+    # tool-call dialogues (assistant messages with tool calls and empty or non-empty content, tool results) for every family
+    fams = ["range", "legacy", "legacyif", "sysrange"]
+    for i in range(40 if ctx.quick() else 400):
+        st = fixed[i % 2] if i % 5 == 4 else rnd_style(rng)
+        while i % 5 != 4 and st["fam"] != fams[i % 4]:
+            st = rnd_style(rng)
+        convs.append((st, tool_dialogue(rng), rng.choice([0, 0, 4]), False, 0, "tool-dialogue"))
+    # sequences in one process: a chat whose tokenizer / template fails after candidate renderings, then ordinary chats that
+    # must be served as if nothing had happened; and big-then-small chats
+    for g in range(12 if ctx.quick() else 120):
+        kind = ("tok-fail", "tmpl-fail", "big-small")[g % 3]
+        st = rnd_style(rng)
+        while kind == "tmpl-fail" and st["fam"] != "range":
+            st = rnd_style(rng)
+        big = [dict(m, id=500 + m["id"]) for m in rnd_conv(rng, 7)]
+        while len(big) < 3:
+            big = [dict(m, id=500 + m["id"]) for m in rnd_conv(rng, 7)]
+        for m in big:
+            m["body"] = m["body"] + " " + rnd_body(rng, long=True)
+            m.pop("raw", None)
+        if kind == "tmpl-fail":
+            st = dict(st, boom=True)
+            big[rng.randrange(len(big) - 1)]["role"] = "boom"
+        convs.append((st, big, 0, False, 0, "seq-" + kind, {"seq": g, "pos": 0, "kind": kind}))
+        followers = [[{"id": 0, "role": "user", "body": "hi", "images": []}], rnd_conv(rng, 4), tool_dialogue(rng) if g % 2 else rnd_conv(rng, 3)]
+        for pos, fm in enumerate(followers, 1):
+            convs.append((rnd_style(rng) if pos > 1 else st, fm, 0, False, 0, "seq-follow", {"seq": g, "pos": pos, "kind": kind}))
     return convs
 
 
@@ -551,8 +653,9 @@ def shrink(ctx, binp, c, sig):
 def describe(c, o):
     return {"template": style_text(c["style"]), "tokenizer": "white-space fields" if c["tok"] == 0 else "one token per %d bytes" % c["tok"],
             "num_ctx": c["num_ctx"], "mllama": c["mllama"], "projector": c["proj"],
-            "messages": [{"role": m["role"], "content": content_of(m), "images": m["images"]} for m in c["msgs"]],
-            "candidate_context_lengths": ctxlens(c, o) if "cand" in o else None,
+            "messages": [dict({"role": m["role"], "content": content_of(m), "images": m["images"]}, **({"tool_calls": m["tools"]} if m.get("tools") else {})) for m in c["msgs"]],
+            "tokenizer_fails_on_call": c.get("tok_fail", 0),
+            "candidate_context_lengths": ctxlens(c, o) if "cand" in o else None, "after_a_failed_request": c.get("kind"),
             "prompt": bytes.fromhex(o.get("prompt", "")).decode("utf-8", "replace"),
             "images_returned": [(e["id"], e.get("_img")) for e in o.get("images") or []], "outcome": o.get("outcome"), "err": o.get("err")}
 
@@ -562,24 +665,51 @@ def check_cases(ctx, binp, cases, obs, cand_done):
     items, owners = [], []
     for c, o in zip(cases, obs):
         klass = classify(c, o)
-        canon = {"t": style_text(c["style"]), "m": [(m["role"], content_of(m), m["images"]) for m in c["msgs"]], "k": c["tok"], "ml": c["mllama"], "p": c["proj"], "n": c["num_ctx"]}
+        canon = {"t": style_text(c["style"]), "m": [(m["role"], content_of(m), m["images"], m.get("tools", 0)) for m in c["msgs"]], "tf": c.get("tok_fail", 0), "k": c["tok"], "ml": c["mllama"], "p": c["proj"], "n": c["num_ctx"]}
         ctx.note_case(canon, klass not in ("single-message", "empty"), klass, sample=describe(c, o))
         ctx.count("gen:" + c["klass"])
         ctx.count("family:" + c["style"]["fam"])
         j = judge(c, o)
         if j is not None:
             sig, text = j
-            nclass = sum(1 for v in ctx.violations if v["sig"] == sig)
-            if nclass < 3 and len(ctx.violations) < 40:
-                try:
-                    c2, o2 = shrink(ctx, binp, c, sig)
-                except Exception as ex:   # the shrinker must never hide the failure
-                    ctx.log("shrink failed:", ex)
-                    c2, o2 = c, o
+            nclass = sum(1 for v in ctx.violations if v["sig"].get("class") == sig.get("class"))
+            fresh = None
+            if nclass < 3:
+                fo, _ = ctx.run_jsonl(binp, [wire(c)])
+                if fo and "outcome" in fo[0]:
+                    decode_images(c, fo[0])
+                    fresh = judge(c, fo[0])
+            if nclass < 3 and fresh is None and fo and "outcome" in fo[0]:
+                # the same request is served correctly by a fresh process: the failure depends on what this process did before
+                idx = cases.index(c)
+                prefix = cases[max(0, idx - 6):idx]
+                for k in (1, 2, 3, 4, 6):
+                    pre = cases[max(0, idx - k):idx]
+                    po, _ = ctx.run_jsonl(binp, [wire(x) for x in pre + [c]])
+                    if po and len(po) == len(pre) + 1 and "outcome" in po[-1]:
+                        decode_images(c, po[-1])
+                        jj = judge(c, po[-1])
+                        if jj is not None and jj[0] == sig:
+                            prefix = pre
+                            break
+                decode_images(c, o)
+                ctx.violation(dict(sig, state="depends-on-earlier-requests"),
+                              text + " (a fresh process serves this request correctly; it fails after %d earlier request(s) in the same process, the first of which: %s) -- %s"
+                              % (len(prefix), json.dumps(describe(prefix[0], {}))[:400] if prefix else "-", json.dumps(describe(c, o))[:1200]),
+                              {"case": c, "prefix": prefix, "wire": [wire(x) for x in prefix + [c]], "impl": o, "readable": describe(c, o)})
             else:
-                c2, o2 = c, o
-            j2 = judge(c2, o2) or j
-            ctx.violation(j2[0], j2[1] + " -- " + json.dumps(describe(c2, o2))[:1500], {"case": c2, "wire": wire(c2), "impl": o2, "readable": describe(c2, o2)})
+                if nclass < 3:
+                    try:
+                        c2, o2 = shrink(ctx, binp, c, sig)
+                    except Exception as ex:   # the shrinker must never hide the failure
+                        ctx.log("shrink failed:", ex)
+                        c2, o2 = c, o
+                else:
+                    c2, o2 = c, o
+                j2 = judge(c2, o2)
+                if j2 is None:
+                    c2, o2, j2 = c, o, j
+                ctx.violation(j2[0], j2[1] + " -- " + json.dumps(describe(c2, o2))[:1500], {"case": c2, "wire": wire(c2), "impl": o2, "readable": describe(c2, o2)})
         items.append(render_chat(c, o))
         owners.append((c, o, "chk_chat"))
         key = id(c["msgs"]), style_text(c["style"]), c["tok"]
@@ -639,22 +769,34 @@ def run(ctx):
         return
     convs = gen_convs(ctx)
     # phase 1: measure the candidate lengths (num_ctx irrelevant for them)
-    probe = [mk_case(st, msgs, tok, mll, proj, 0, kl, png=(kl == "mllama-png")) for st, msgs, tok, mll, proj, kl in convs]
+    probe = [dict(mk_case(cv[0], cv[1], cv[2], cv[3], cv[4], 0, cv[5], png=(cv[5] == "mllama-png")), **(cv[6] if len(cv) > 6 else {})) for cv in convs]
     probe.append(mk_case(fixed_styles()[-1], [], 0, False, 0, 5, "empty"))
     obs0 = run_cases(ctx, binp, probe)
     if obs0 is None:
         return
-    cases = []
+    cases, seqs = [], []
     for c0, o0 in zip(probe, obs0):
         if not c0["msgs"]:
             cases.append(c0)
+            continue
+        if "seq" in c0:
+            L = [v for v in ctxlens(c0, o0) if v is not None]
+            if c0["pos"] == 0:
+                # everything measured (all candidates rendered); the failure comes at one of the calls / at the boom message
+                c1 = dict(c0, num_ctx=max(L) + ctx.rng.choice([0, 0, 5]))
+                if c0["kind"] == "tok-fail":
+                    c1["tok_fail"] = ctx.rng.randint(1, len(c0["msgs"]) - 1)
+                seqs.append(c1)
+            else:
+                # the follower fits exactly: any over-count of its first candidate drops a message
+                seqs.append(dict(c0, num_ctx=L[0] if ctx.rng.random() < 0.7 else ctx.rng.choice(L)))
             continue
         per = 3 if c0["klass"] in ("random", "literal-tag", "mllama-png") else (2 if ctx.quick() else 4)
         if c0["klass"] == "corpus":
             per = 4
         for t in thresholds(ctx.rng, c0, o0, per):
             cases.append(dict(c0, num_ctx=t))
-    cases = corpus_cases() + cases
+    cases = corpus_cases() + cases + seqs      # the sequences stay in order, all in the one harness process
     obs = run_cases(ctx, binp, cases)
     if obs is None:
         return
@@ -676,7 +818,7 @@ def chat_conv(c):
 
 
 def wire_chat(c):
-    w = lambda ms: [{"role": m["role"].encode().hex(), "content": content_of(m).encode().hex(), "images": [img_bytes(i).hex() for i in m["images"]]} for m in ms]
+    w = lambda ms: [{"role": m["role"].encode().hex(), "content": content_of(m).encode().hex(), "images": [img_bytes(i).hex() for i in m["images"]], "tool_calls": m.get("tools", 0)} for m in ms]
     return {"tmpl": style_text(c["style"]).encode().hex(), "system": (content_of(c["system"]) if c["system"] else "").encode().hex(),
             "model_msgs": w(c["model_msgs"]), "msgs": w(c["msgs"]), "num_ctx": c["num_ctx"]}
 
@@ -715,7 +857,7 @@ def handler_check(ctx):
     base = []
     for i in range(50 if ctx.quick() else 500):
         st = rng.choice(fixed_styles()) if rng.random() < 0.3 else rnd_style(rng)
-        msgs = rnd_conv(rng, 6)
+        msgs = tool_dialogue(rng) if i % 4 == 3 else rnd_conv(rng, 6)
         j = rng.randrange(len(msgs))            # msgs[:j] are the model's own messages, msgs[j:] the request
         model_msgs = [dict(m, images=[], body=m["body"].replace("[img]", "")) for m in msgs[:j]]
         system = None if rng.random() < 0.35 else {"id": 900, "role": "system", "body": rnd_body(rng, long=rng.random() < 0.3), "images": []}
@@ -785,11 +927,12 @@ def replay(ctx, path):
     binp = ctx.go_build("c19")
     if not binp:
         return
-    obs = run_cases(ctx, binp, [c])
+    seq = list(rp.get("prefix") or []) + [c]      # earlier requests of the same process first
+    obs = run_cases(ctx, binp, seq)
     if obs is None:
         return
-    print(json.dumps(describe(c, obs[0]), indent=1))
-    check_cases(ctx, binp, [c], obs, set())
+    print(json.dumps(describe(c, obs[-1]), indent=1))
+    check_cases(ctx, binp, seq, obs, set())
 
 
 MANIFEST = {
